@@ -360,6 +360,74 @@ def run(repo, rep, tier):
                 what = "re-implements the index arithmetic itself" if own_arith else f"never reaches fill's routing function(s) {sorted(routing)}"
                 rep.finding("R13.2", a, (own_arith[0] if own_arith else a.node), f"{c.name}.{an} {what}: the bin it reports for x can "
                             f"differ from the bin fill puts x into", stmt=f"{an}: routing not shared")
+    # ---------------- R13.6: an index computed from the query goes through one of the class's own index methods
+    # views are read accessors: they neither modify the histogram nor hand out objects that share its counters
+    rep.borrow(repo, "C06", {"R6.1": ("R13.7", "derived views (accessors, grids, projections) have no store effect on the histogram", 250),
+                             "R6.2": ("R13.8", "projections are built from fresh counters", 40)},
+               keep=lambda f: f.file.startswith("histogrammar/plot/") or any(x in f.construct for x in (".bin_", ".num_bins", ".mpv", ".range", ".project", ".xy_", ".x_lim", ".y_lim")))
+    r6 = rep.rule("R13.6", "children are looked up by an index obtained from the class's own index methods, never from inline arithmetic on the query", floor=6)
+    from ..model import build_models as _bm
+    _models = _bm(repo)
+    for c in prims:
+        if c.name not in BINNED:
+            continue
+        slots = set(_models[c.name].slots)
+        for an in ACCESSORS:
+            a = repo.lookup(c, an)
+            if not isinstance(a, FuncInfo):
+                continue
+            sn = a.params[0]
+            tainted = set(a.params[1:])
+
+            def routed(e):
+                """True if every occurrence of a tainted name in e is inside the arguments of a self-method call"""
+                if isinstance(e, ast.Call):
+                    ch = chain(e.func)
+                    if ch and ch[0] == sn and len(ch) == 2 and isinstance(repo.lookup(c, ch[1]), FuncInfo):
+                        return True
+                if isinstance(e, ast.Name):
+                    return e.id not in tainted
+                if isinstance(e, ast.IfExp):
+                    return routed(e.body) and routed(e.orelse)     # the test selects, it does not compute the index
+                return all(routed(x) for x in ast.iter_child_nodes(e) if isinstance(x, ast.expr))
+
+            changed = True
+            while changed:
+                changed = False
+                for n in walk_local_stmt(a.node):
+                    tg = []
+                    val = None
+                    if isinstance(n, ast.Assign):
+                        tg, val = n.targets, n.value
+                    elif isinstance(n, ast.AugAssign):
+                        tg, val = [n.target], n.value
+                    elif isinstance(n, ast.For):
+                        tg, val = [n.target], n.iter
+                    elif isinstance(n, ast.comprehension):
+                        tg, val = [n.target], n.iter
+                    if val is None or routed(val):
+                        continue
+                    for t in tg:
+                        for x in ast.walk(t):
+                            if isinstance(x, ast.Name) and x.id not in tainted:
+                                tainted.add(x.id)
+                                changed = True
+            for n in walk_local_stmt(a.node):
+                if isinstance(n, ast.Subscript) and isinstance(n.ctx, ast.Load):
+                    b = n.value
+                    if isinstance(b, ast.Attribute) and isinstance(b.value, ast.Name) and b.value.id == sn and b.attr in slots:
+                        idx = n.slice
+                        parts = [idx.lower, idx.upper] if isinstance(idx, ast.Slice) else [idx]
+                        parts = [x for x in parts if x is not None]
+                        if all(isinstance(x, ast.Constant) for x in parts):
+                            continue
+                        ok = all(routed(x) for x in parts)
+                        r6.ob(ok, f"{c.name}.{an}: `{ast.unparse(n)[:60]}`")
+                        if not ok:
+                            rep.finding("R13.6", a, n, f"`{ast.unparse(n)[:80]}` looks a child up by an index computed inline from the query "
+                                        f"({sorted(x.id for p2 in parts for x in ast.walk(p2) if isinstance(x, ast.Name) and x.id in tainted)}), not "
+                                        f"by one of {c.name}'s own index methods: ties, NaN and +-inf are then resolved differently from fill, "
+                                        f"so the reported bin is not the bin the datum was filled into", stmt=f"{an}: inline index {ast.unparse(idx)[:40]}")
     # ---------------- R13.3
     for c in prims:
         if c.name not in BINNED:
